@@ -308,7 +308,9 @@ pub fn grammar_archive(r: &mut Rng) -> Vec<u8> {
     for _ in 0..n {
         let t = **r.pick(types);
         let d: Vec<u8> = match &t {
-            b"FHED" => match r.below(4) {
+            b"FHED" => match r.below(6) {
+                4 => vec![0, 0, r.below(4) as u8, 0, r.below(3) as u8, r.below(2) as u8],          // empty name
+                5 => vec![0, 0, r.below(4) as u8, 0, 0, 0, b'.', b'.', b'/', b'/', b'.'],           // sanitises to an empty name
                 0 => vec![0, 0, r.below(5) as u8, r.below(6) as u8, r.below(4) as u8, r.below(3) as u8, b'n'],
                 1 => r.bytes(r.clone().below(8) as usize),
                 2 => vec![r.below(2) as u8, r.below(2) as u8, 0, 0, 0, 0, b'a', b'/', b'.', b'.', b'/', b'b'],
@@ -319,7 +321,10 @@ pub fn grammar_archive(r: &mut Rng) -> Vec<u8> {
                 1 => vec![0, 0, r.below(6) as u8, r.below(4) as u8, r.below(3) as u8],
                 _ => r.bytes(r.clone().below(8) as usize),
             },
-            b"PHSF" => match r.below(6) {
+            b"PHSF" => match r.below(9) {
+                6 => b"$argon2id$v=19$m=8,t=1,p=536870912$c2FsdHNhbHRzYWx0".to_vec(),
+                7 => b"$argon2id$v=19$m=4294967295,t=1,p=1$c2FsdHNhbHRzYWx0".to_vec(),
+                8 => b"$argon2id$v=19$m=134217720,t=1,p=16777215$c2FsdHNhbHRzYWx0".to_vec(),
                 0 => b"$argon2id$v=19$m=8,t=1,p=1".to_vec(),
                 1 => b"$pbkdf2-sha256$i=1,l=32".to_vec(),
                 2 => b"$pbkdf2-sha256$i=1,l=16$c2FsdHNhbHQ".to_vec(),
@@ -327,7 +332,11 @@ pub fn grammar_archive(r: &mut Rng) -> Vec<u8> {
                 4 => vec![0xff, 0xfe],
                 _ => b"garbage".to_vec(),
             },
-            b"cTIM" | b"mTIM" | b"aTIM" => { let k = *r.pick(&[0usize, 7, 8, 8, 9]); r.bytes(k) }
+            b"cTIM" | b"mTIM" | b"aTIM" => match r.below(3) {
+                // extreme seconds: beyond SystemTime (i64), beyond chrono's range, far future
+                0 => (*r.pick(&[u64::MAX, i64::MAX as u64, 1u64 << 62, 8_210_298_412_805, 1u64 << 33, 0])).to_be_bytes().to_vec(),
+                _ => { let k = *r.pick(&[0usize, 7, 8, 8, 9]); r.bytes(k) }
+            },
             b"fSIZ" => { let k = r.below(20) as usize; r.bytes(k) }
             b"fPRM" => { let k = *r.pick(&[0usize, 8, 9, 18, 20, 25]); let mut b = r.bytes(k); if k > 8 { b[8] = r.below(6) as u8; } b }
             b"xATR" => match r.below(4) {
